@@ -186,7 +186,8 @@ def obligations(tier: str) -> List[dict]:
         for m in ('amr', 'custom'):
             for src in (0, 1, 2):
                 add(m, 1, 2, src, 400)
-        add('default', 2, 1, 0, 400)
+        for x0 in range(4):
+            add('default', 2, 1, 0, 400, x0=x0)
         add('custom', 2, 1, 0, 400, x0=0)
         add('custom', 2, 1, 0, 400, x0=1)
     else:
